@@ -291,6 +291,14 @@ void run_C02(void) {
       one_case(N, nrows, ncols, nrows, ncols, (unsigned)nrows % 3, native, 0, 2000);
     }
   }
+  // every column count 1..260 (two rows suffice: a slot computed from (row, column) goes wrong on the second row)
+  for (uint64_t ncols = 1; ncols <= 260; ncols++) {
+    const uint64_t N = (ncols & 1) ? 8 : 4, nrows = 2 + ncols % 2;
+    for (int native = 1; native >= 0; native--) {
+      if (!th && !native && (ncols % 3)) continue;
+      one_case(N, nrows, ncols, nrows, ncols, (unsigned)ncols % 3, native, 0, 3000);
+    }
+  }
   // sampled large shapes (nrows up to 40, ncols up to 12)
   {
     unsigned n = th ? 3000 : 120;
